@@ -481,6 +481,9 @@ class MolGraph:
             for bond, attrs in self._bond_attrs.items()
         }
         if copy is True:
+            # the copy must not share attribute dictionaries with self
+            atom_attrs = deepcopy(atom_attrs)
+            bond_attrs = deepcopy(bond_attrs)
             new_graph = self.__class__()
         elif copy is False:
             new_graph = self
@@ -530,9 +533,9 @@ class MolGraph:
         :return: Subgraph
         """
         new_atoms = set(atoms)
-        atom_attrs = {atom: self._atom_attrs[atom] for atom in atoms}
+        atom_attrs = {atom: deepcopy(self._atom_attrs[atom]) for atom in atoms}
         bond_attrs = {
-            bond: attrs
+            bond: deepcopy(attrs)
             for bond, attrs in self._bond_attrs.items()
             if new_atoms.issuperset(bond)
         }
@@ -596,8 +599,8 @@ class MolGraph:
         """
         new_graph = cls()
         for mol_graph in mol_graphs:
-            new_graph._atom_attrs.update(mol_graph._atom_attrs)
-            new_graph._bond_attrs.update(mol_graph._bond_attrs)
+            new_graph._atom_attrs.update(deepcopy(mol_graph._atom_attrs))
+            new_graph._bond_attrs.update(deepcopy(mol_graph._bond_attrs))
 
             for atom, neighbors in mol_graph._neighbors.items():
                 new_graph._neighbors.setdefault(atom, set()).update(neighbors)
